@@ -200,3 +200,42 @@ def validate_trace(trace_path, timeout=3000):
     st = tlc_stats(out)
     st["wall_s"] = round(dt, 2)
     return viol, st
+
+
+def build_macrolab(features=()):
+    """Compile the macro crate's own sources (from the repo working tree) together with
+    macrolab/lab.rs into a plain binary, reusing the dependency rlibs cargo built for gecs_macros."""
+    rlib, deps = build_gecs(features, False)
+    h = hashlib.sha256()
+    _hash_files(tree_files(REPO, ["macros/src"], {".rs"}) + [os.path.join(VERIF, "macrolab", "lab.rs")], h)
+    h.update(repr(sorted(features)).encode())
+    outdir = os.path.join(BUILD, "hbin")
+    os.makedirs(outdir, exist_ok=True)
+    binp = os.path.join(outdir, "macrolab-%s" % h.hexdigest()[:16])
+    if os.path.exists(binp):
+        return binp
+    main_rs = os.path.join(BUILD, "macrolab_main_%d.rs" % os.getpid())
+    with open(main_rs, "w") as f:
+        f.write('#![allow(warnings)]\n#[path = "%s/macros/src/data.rs"] mod data;\n#[path = "%s/macros/src/generate/mod.rs"] mod generate;\n'
+                '#[path = "%s/macros/src/parse/mod.rs"] mod parse;\n#[path = "%s/macrolab/lab.rs"] mod lab;\nfn main() { std::panic::set_hook(Box::new(|_| {})); lab::main(); }\n'
+                % (REPO, REPO, REPO, VERIF))
+    cmd = ["rustc", "--edition", "2021", "-Awarnings", "-L", "dependency=" + deps, main_rs, "-o", binp]
+    for crate in ("syn", "quote", "proc_macro2", "convert_case", "xxhash_rust", "base64", "speedy"):
+        cands = [x for x in os.listdir(deps) if x.startswith("lib%s-" % crate) and x.endswith(".rlib")]
+        if not cands:
+            raise ToolError("dependency rlib for %s not found" % crate)
+        cands.sort(key=lambda x: os.path.getmtime(os.path.join(deps, x)))
+        cmd += ["--extern", "%s=%s" % (crate, os.path.join(deps, cands[-1]))]
+    for f in features:
+        cmd += ["--cfg", 'feature="%s"' % f]
+    rc, out, dt = sh(cmd, timeout=1200, check=False)
+    os.remove(main_rs)
+    if rc != 0:
+        raise ToolError("rustc of macrolab failed:\n%s" % out[-4000:])
+    olds = sorted((os.path.getmtime(os.path.join(outdir, f)), f) for f in os.listdir(outdir) if f.startswith("macrolab-"))
+    for _, f in olds[:-3]:
+        try:
+            os.remove(os.path.join(outdir, f))
+        except OSError:
+            pass
+    return binp
